@@ -41,7 +41,7 @@ structure St where
   tbl     : List Nat
   pm      : Int
 
-/-- `InitQCTree` on a fresh chain / `initQcTree()` of the tests:
+/-- `InitQCTree` on a fresh chain (see `initQCTree` below for every ledger) / `initQcTree()` of the tests:
 Genesis = Root = HighQC = CommitQC = the genesis proposal. -/
 def init (g : Nat) : St :=
   { sons := fun _ => [], root := g, genesis := g, high := g, generic := none, locked := none,
@@ -49,6 +49,44 @@ def init (g : Nat) : St :=
 
 def upd (f : Nat → List Nat) (a : Nat) (l : List Nat) : Nat → List Nat :=
   fun x => if x = a then l else f x
+
+/-- `father.Sons = append(father.Sons, son)` -/
+def link (f : Nat → List Nat) (father son : Nat) : Nat → List Nat := upd f father (f father ++ [son])
+
+/-- `InitQCTree(startHeight, ledger, log)` (kernel/consensus/base/common/common.go, after the `fix:`
+commit e280267 recorded in known_findings.d/C15.json) over a ledger whose main chain holds the blocks
+of the heights `0..tip`; `chain h` is the id of the block of height `h` (`makeTreeNode` gives it view
+`h` and the parent id `chain (h-1)`).  `none` = the function returns nil: the block `start - 1` that
+becomes the genesis QC is not on the ledger.
+
+* `tip ≤ start` — initial state: Genesis = Root = HighQC = CommitQC = block `start - 1`; if the block
+  of the start height is already on the ledger (restart exactly there) it hangs under it;
+* restart with `tip < 3`: Root = block 0, HighQC = block `tip - 1` (`switch tip.GetHeight()`; the
+  cases 0 and 1 are dead for a ledger that has no block `-1`, they are modelled as written);
+* restart with `tip ≥ 3`: Root = block `tip-3`, GenericQC = `tip-2`, HighQC = `tip-1`, then the tip. -/
+def initQCTree (chain : Nat → Nat) (start tip : Nat) : Option St :=
+  if start = 0 ∨ tip + 1 < start then none else
+  let g := chain (start - 1)
+  if tip ≤ start then
+    if tip = start then
+      some { init g with sons := link (fun _ => []) g (chain tip), tbl := [g, chain tip] }
+    else some (init g)
+  else if tip < 3 then
+    let r := chain 0
+    let t : St := { sons := fun _ => [], root := r, genesis := g, high := r, generic := none, locked := none,
+                    commit := none, orphans := [], omap := [], tbl := [r], pm := 0 }
+    match tip with
+    | 0 => some t
+    | 1 => some { t with sons := link t.sons r (chain tip), tbl := [r, chain tip] }
+    | _ => some { t with high := chain 1, sons := link (link t.sons (chain 1) (chain tip)) r (chain 1),
+                         tbl := [r, chain 1, chain tip] }
+  else
+    let r := chain (tip - 3)
+    let gq := chain (tip - 2)
+    let h := chain (tip - 1)
+    some { sons := link (link (link (fun _ => []) r gq) gq h) h (chain tip), root := r, genesis := g, high := h,
+           generic := some gq, locked := none, commit := none, orphans := [], omap := [],
+           tbl := [r, gq, h, chain tip], pm := 0 }
 
 /-- `DFSQuery(node, target) != nil` with fuel (depth bound). -/
 def dfs (sons : Nat → List Nat) : Nat → Nat → Nat → Bool
